@@ -105,6 +105,7 @@ const TEMPLATES: &[&str] = &[
     "_{SOURce}:{VOLTage}:{LEVel}~2_;_{LEVel}~3_;_{LEVel}?_$",
     "_{MEASure}:{DATA}~\"x\"_,_#10_,_0_;_:{SYSTem}:{VALue}?_$",
     "_{VOLTage}:{LEVel}?_;_:{SOURce}:{VOLTage}:{LEVel}~.5_$",
+    "_{CALibration}:{TemperatureCompensation}~7_;_{TemperatureCompensation}?_$",
 ];
 
 /// A variant assigns: each Mn piece a form index, each slot a white-space
